@@ -837,7 +837,7 @@ def compare(goline, mlline, intent, nbad=0):
         return "unparsable output: impl=%s model=%s" % (goline[:200], mlline[:200]), "broken"
     run = g["runs"][0]
     loads = g["loads"]
-    if loads.count("err") != nbad or len(loads) == 0:
+    if sum(1 for x in loads if x.startswith("err")) != nbad or len(loads) == 0:
         return "a generated text was rejected by Parse: %s %s" % (loads, run["errors"][:2]), "broken"
     go_err = len(run["errors"]) > 0
     leaves = m["leaves"]
